@@ -75,11 +75,15 @@ JudgePV(c, e, h, root, p, x, outs, sv, dvout) ==
          THEN JudgeOne(e, p, x, "dv", ref, sup, opa, dvout, sv) ELSE <<>>)
      \o SvCheck(ref, sup, sv)
 
+\* C14: Derivative(e) is constructible exactly for expressions with at most one variable
+DerivativeCtor(c) == LET e == Unfold(c.h, Len(c.h)) IN
+   IF (Cardinality(Vars(e)) <= 1) = (c.dctor = "ok") THEN <<>> ELSE <<"V:C14.derivative_constructor@dv">>
 Verdict(c) ==
   LET h == c.h root == Len(h) e == Unfold(h, root) IN
   [j \in 1..Len(c.pts) |->
      [t \in 1..Len(c.q) |-> JudgePV(c, e, h, root, c.pts[j], c.q[t], c.outs[j][t], c.svs[j][t],
-                                     IF c.q[t] = c.dvar THEN c.dv[j] ELSE [k |-> "na"])]]
+                                     IF c.q[t] = c.dvar THEN c.dv[j] ELSE [k |-> "na"])
+                             \o (IF j = 1 /\ t = 1 THEN DerivativeCtor(c) ELSE <<>>)]]
 
 Init == blk \in 1..NBLK /\ i = 0
 Next == i = 0 /\ i' \in { k \in 1..N : (k % NBLK) + 1 = blk } /\ UNCHANGED blk
